@@ -254,12 +254,24 @@ func drainPaused(a, b *pausedSSE, sentinel func() error, want int) (got []int, o
 	}()
 	// the sentinel goes through the same path as the burst: retry until the server accepts it
 	deadline := time.Now().Add(waitCeiling())
-	for sentinel() != nil && time.Now().Before(deadline) {
+	accepted := false
+	for time.Now().Before(deadline) {
+		err := sentinel()
+		if err == nil {
+			accepted = true
+			break
+		}
+		if !strings.Contains(err.Error(), "full") {
+			break // refused for another reason than a full buffer: it will never be accepted
+		}
 		time.Sleep(time.Millisecond)
 	}
-	select {
-	case <-sawSentinel:
-	case <-time.After(waitCeiling()):
+	if accepted {
+		select {
+		case <-sawSentinel:
+		case <-time.After(waitCeiling()):
+			degraded.Store(true)
+		}
 	}
 	// everything accepted before the sentinel has been written before it, unless frames overtook: give stragglers a bounded wait
 	waitUntilShort(func() bool { mu.Lock(); defer mu.Unlock(); return len(got) >= want })
